@@ -27,8 +27,8 @@ from .c16 import datetime_julian
 
 MANIFEST = {
     "level": "other",
-    "technique": "static analysis: data-dependence (slicing) of the year selector on the recomputed month, control-dependence of century corrections on a calendar test, threshold-gap rule on the calendar split, sibling-constant comparison of the JD->date blocks, refusal path rule, term equality of the Easter / Pesach / Moslem recipes with the published algorithms (ring algebra with floor and mod uninterpreted), exact decision-table evaluation of the Moslem year-end carry on every ordering class",
-    "text": "For the Moslem <-> civil conversions the rules decide, for every date at once, three structural necessary conditions of the day bijection (year chosen from the recomputed month, Gregorian correction only in the Gregorian regime, no civil year skipped by the calendar split) plus agreement of the shared JD->date block with Epoch.get_date and the argument refusals. Easter (Gregorian from 1583, Julian before), Pesach and the Moslem -> civil day count are shown to be term-for-term the published recipes (Meeus ch. 8-9), and the Moslem year-end carry to be that of a Julian-calendar year; that the published recipes equal the tabular Computus / arithmetic calendars is trusted. Month/year lengths and the bijection itself are not decided.",
+    "technique": "static analysis: data-dependence (slicing) of the year selector on the recomputed month, control-dependence of century corrections on a calendar test, threshold-gap rule on the calendar split, sibling-constant comparison of the JD->date blocks, refusal path rule, term equality of the Easter / Pesach / Moslem recipes with the published algorithms (ring algebra with floor and mod uninterpreted), exact decision-table evaluation of the Moslem year-end carry on every ordering class and of the civil -> day-count stage of gregorian2moslem on every class of civil date (month x year mod 400 over two cycles, Julian years mod 4) against the calendar ordinal",
+    "text": "For the Moslem <-> civil conversions the rules decide, for every date at once, three structural necessary conditions of the day bijection (year chosen from the recomputed month, Gregorian correction only in the Gregorian regime, no civil year skipped by the calendar split) plus agreement of the shared JD->date block with Epoch.get_date and the argument refusals. Easter (Gregorian from 1583, Julian before), Pesach and the Moslem -> civil day count are shown to be term-for-term the published recipes (Meeus ch. 8-9), and the Moslem year-end carry to be that of a Julian-calendar year; that the published recipes equal the tabular Computus / arithmetic calendars is trusted. The civil -> Moslem direction is shown to count civil days uniformly (its running day count differs from the calendar ordinal by one constant on every class of date), a necessary condition of consecutive days mapping to consecutive dates. Month/year lengths and the bijection itself are not decided.",
     "note": "Trusted: the reading of INT(x/100) as a century number; thresholds 1582/1583/2299161 as calendar tests. Trusted: the published recipes. Undecided: month lengths 29/30, year lengths 354/355, the bijection and the epoch 16 July 622.",
 }
 MOD = "Epoch"
